@@ -492,7 +492,102 @@ def wl_totality(ctx, rng, i):
         ctx.count("random_pair_true")
 
 
+def relation_pool(rng):
+    """Pattern texts that share literals: address families with and without prefixes, registry-key spellings, plain values."""
+    h4 = "%d.%d.%d.%d" % (rng.randrange(1, 223), rng.randrange(256), rng.randrange(256), rng.randrange(1, 255))
+    import ipaddress
+    n24 = str(ipaddress.ip_network(h4 + "/24", strict=False))
+    n8 = str(ipaddress.ip_network(h4 + "/8", strict=False))
+    o4 = str(ipaddress.ip_address(int(ipaddress.ip_address(h4)) ^ 1))
+    fam4 = [h4, h4 + "/32", h4 + "/24", n24, h4 + "/8", n8, o4, o4 + "/24"]
+    hi = rng.getrandbits(48)
+    h6 = str(ipaddress.ip_address((0x20010db8 << 96) | (hi << 32) | (rng.randrange(1, 65535) << 16) | rng.randrange(1, 65535)))
+    n112 = str(ipaddress.ip_network(h6 + "/112", strict=False))
+    n32 = str(ipaddress.ip_network(h6 + "/32", strict=False))
+    o6 = str(ipaddress.ip_address(int(ipaddress.ip_address(h6)) ^ 3))
+    fam6 = [h6, h6 + "/128", h6 + "/112", n112, h6 + "/32", n32, o6, o6 + "/112", h6 + "/64"]
+    key = rng.choice(["HKEY_LOCAL_MACHINE\\\\Software\\\\Foo", "HKEY_CURRENT_USER\\\\Bar"])
+    famk = [key, key.lower(), key.upper(), key + "x"]
+    pool = []
+    which = rng.choice(["v4", "v6", "v6", "key", "mixed"])
+    if which in ("v4", "mixed"):
+        pool += ["[ipv4-addr:value = '%s']" % x for x in rng.sample(fam4, 6)]
+    if which in ("v6", "mixed"):
+        pool += ["[ipv6-addr:value = '%s']" % x for x in rng.sample(fam6, 7)]
+    if which in ("key", "mixed"):
+        pool += ["[windows-registry-key:key = '%s']" % x for x in famk]
+    if which == "v6" and rng.random() < 0.5:
+        pool += ["[ipv6-addr:value != '%s']" % h6, "[ipv6-addr:value IN ('%s', '%s')]" % (h6, o6), "[ipv6-addr:value = '%s' OR ipv6-addr:value = '%s']" % (n112, h6)]
+    if which == "v4" and rng.random() < 0.5:
+        pool += ["[ipv4-addr:value != '%s']" % h4, "[ipv4-addr:value = '%s' OR ipv4-addr:value = '%s']" % (n24, h4), "[network-traffic:src_ref.value = '%s']" % h4]
+    rng.shuffle(pool)
+    return pool[:10], which
+
+
+def wl_relation(ctx, rng, i):
+    """The verdict is a function of the pair (asked again later, in another order, it is the same), and on a pool of patterns
+    sharing literals it is reflexive, symmetric and transitive; find_equivalent_patterns agrees with the pairwise verdicts."""
+    from stix2.equivalence.pattern import find_equivalent_patterns
+    pool, which = relation_pool(rng)
+    if any(validate_text(p, "2.1") for p in pool):
+        ctx.skip("generator error")
+        return
+    n = len(pool)
+    pairs = [(a, b) for a in range(n) for b in range(n)]
+    rounds = []
+    for rnd in range(3):
+        order = list(pairs)
+        rng.shuffle(order)
+        m = {}
+        for a, b in order:
+            r = lib_eq(ctx, pool[a], pool[b], [], "relation pool")
+            if r is None:
+                return
+            m[(a, b)] = r
+        rounds.append(m)
+        if rnd == 1:
+            # a search in between is one more piece of history
+            for a in rng.sample(range(n), 3):
+                ctx.ev()
+                try:
+                    with warnings.catch_warnings():
+                        warnings.simplefilter("ignore")
+                        found = list(find_equivalent_patterns(pool[a], pool))
+                except Exception as e:
+                    ctx.violation("raised:%s@%s" % (type(e).__name__, where_raised(e)), "find_equivalent_patterns raised %s" % type(e).__name__, {"pattern": pool[a], "pool": pool})
+                    return
+                exp = [pool[b] for b in range(n) if m[(a, b)]]
+                if sorted(found) != sorted(exp):
+                    ctx.violation("find-disagrees-with-pairwise", "find_equivalent_patterns returns other members than the pairwise verdicts give",
+                                  {"pattern": pool[a], "pool": pool, "found": found, "pairwise": exp})
+    case = {"pool": pool, "family": which}
+    m0 = rounds[0]
+    for rnd, m in enumerate(rounds[1:], 1):
+        diff = [k for k in pairs if m[k] != m0[k]]
+        if diff:
+            a, b = diff[0]
+            ctx.violation("verdict-depends-on-history", "equivalent_patterns answered %s for a pair and %s for the same pair later in the same process" % (m0[(a, b)], m[(a, b)]),
+                          dict(case, pattern1=pool[a], pattern2=pool[b], first_answer=m0[(a, b)], later_answer=m[(a, b)], round=rnd))
+            return
+    for a in range(n):
+        if not m0[(a, a)]:
+            ctx.violation("not-reflexive", "a pattern is not equivalent to itself", dict(case, pattern=pool[a]))
+        for b in range(n):
+            if m0[(a, b)] != m0[(b, a)]:
+                ctx.violation("not-symmetric", "equivalent_patterns(p, q) != equivalent_patterns(q, p)", dict(case, pattern1=pool[a], pattern2=pool[b]))
+                return
+            for c in range(n):
+                if m0[(a, b)] and m0[(b, c)] and not m0[(a, c)]:
+                    ctx.violation("not-transitive", "p~q and q~r but not p~r", dict(case, p=pool[a], q=pool[b], r=pool[c]))
+                    return
+    ctx.count("relation_pools")
+    ctx.count("relation_true_verdicts", sum(1 for k in pairs if m0[k] and k[0] != k[1]))
+    ctx.see("relation families", which)
+    ctx.nontrivial("relation", which, tuple(sorted(pool)))
+
+
 WORKLOADS = [
+    Workload("relation", wl_relation, quick=40, thorough=2000),
     Workload("rewrites", wl_rewrites, quick=350, thorough=40000),
     Workload("totality", wl_totality, quick=500, thorough=60000),
 ]
@@ -509,6 +604,8 @@ def floors(m, tier):
         out.append("fewer than 1000 universes evaluated")
     if c.get("totality_pairs", 0) < 300:
         out.append("fewer than 300 totality pairs")
+    if c.get("relation_pools", 0) < 20 or c.get("relation_true_verdicts", 0) < 20:
+        out.append("fewer than 20 literal-sharing pools judged as a relation, or fewer than 20 True verdicts among them")
     if c.get("triples", 0) < 20:
         out.append("fewer than 20 transitivity triples")
     kinds = m["seen"].get("rewrite kinds", set())
